@@ -273,7 +273,7 @@ func (c *Ctx) lifetimeEpisodes() {
 			return cl
 		}
 		var optLog, hookLog invLog
-		life := time.Duration(40+20*ep) * time.Millisecond
+		life := time.Duration(80+40*ep) * time.Millisecond
 		w := mk(rueidis.ClientOption{DisableCache: true})                              // connection 1: the writer
 		a := mk(rueidis.ClientOption{OnInvalidations: optLog.add, ConnLifetime: life}) // connection 2
 		a.DoCache(ctx, a.B().Get().Key("lk").Cache(), time.Minute)
@@ -293,11 +293,23 @@ func (c *Ctx) lifetimeEpisodes() {
 		c.Emit("e2e "+line, orDash(got), true)
 		c.Emit("!e2e "+line, orDash(got), false)
 		c.finalNil("inval:missing-final-nil:conn-lifetime", line, got, invs)
-		// entries cached on the retired pipe are not served afterwards: the next DoCache asks the server on a new connection
-		conns := srv.NumConns()
-		res := a.DoCache(ctx, a.B().Get().Key("lk2").Cache(), time.Minute)
-		if res.IsCacheHit() || srv.NumConns() == conns {
-			c.Fail("inval:cache-served-after-teardown", line, fmt.Sprintf("DoCache after the pipe was retired: cache hit=%v, new connection=%v", res.IsCacheHit(), srv.NumConns() != conns))
+		// entries cached on the retired pipe are not served afterwards. Judged only when every connection
+		// that ever fetched lk2 is closed by now (under load the lifetime can pass between the two initial
+		// DoCache calls, so that lk2 is legitimately cached on a younger, live pipe)
+		allClosed := true
+		for _, e := range srv.Log() {
+			if len(e.Argv) == 2 && e.Argv[0] == "GET" && e.Argv[1] == "lk2" {
+				if ci, _ := srv.Conn(e.Conn); !ci.Closed {
+					allClosed = false
+				}
+			}
+		}
+		if allClosed {
+			if res := a.DoCache(ctx, a.B().Get().Key("lk2").Cache(), time.Minute); res.IsCacheHit() {
+				c.Fail("inval:cache-served-after-teardown", line, "DoCache answered from the cache of a pipe that was retired")
+			}
+		} else {
+			c.Hit("cache-after-teardown:not-judged")
 		}
 		c.Hit("exit:conn-lifetime")
 
